@@ -405,9 +405,9 @@ Qed.
 Ltac kill := try (exfalso; match goal with H : _ = true |- _ => cbn in H; discriminate H end).
 
 Theorem verify_implies_can_run_b tbl vs : verify_view tbl vs = true -> can_run_b tbl vs = true.
-Proof.
+Proof using addr_ok. clear lib_dur lib_level.
   unfold ConfigTxn.verify_view, verify_proxy, verify_webserver, verify_cache, ConfigTxn.can_run_b.
-  intros H. unfold is_s, is_z, listen_ok in *.
+  intros H. unfold is_s, is_z, listen_ok in H |- *.
   repeat match goal with H : _ && _ = true |- _ => apply andb_true_iff in H; destruct H end.
   destruct (get tbl vs p_proxy_listen) as [[xs1| |]|]; kill.
   destruct (get tbl vs p_ca_cert) as [[xs2| |]|]; kill.
@@ -422,7 +422,8 @@ Proof.
   destruct (get tbl vs p_cache_dir) as [[xs5| |]|]; kill.
   destruct (get tbl vs p_cache_type) as [[xs6| |]|]; kill.
   repeat match goal with H : _ && _ = true |- _ => apply andb_true_iff in H as [? ?] end.
-  unfold webserver_start, ticker, make_locks, cache_type_ok, max_lock_shards in *.
+  repeat match goal with H : context [max_lock_shards] |- _ => unfold max_lock_shards in H end.
+  unfold webserver_start, ticker, make_locks, cache_type_ok.
   repeat (apply andb_true_iff; split); try assumption.
   - destruct (api && negb dash); [discriminate|reflexivity].
   - destruct (xn2 <=? 0) eqn:E; [lia|reflexivity].
@@ -450,8 +451,8 @@ Lemma nonempty_ne s : nonempty s = true -> s <> [].
 Proof. destruct s; [discriminate|discriminate]. Qed.
 
 Theorem can_run_b_sound tbl vs : can_run_b tbl vs = true -> can_run tbl vs.
-Proof.
-  unfold ConfigTxn.can_run_b, can_run. intros H. unfold is_s, is_z in *.
+Proof using addr_ok. clear lib_dur lib_level.
+  unfold ConfigTxn.can_run_b, can_run. intros H. unfold is_s, is_z in H |- *.
   repeat match goal with H : _ && _ = true |- _ => apply andb_true_iff in H; destruct H end.
   destruct (get tbl vs p_proxy_listen) as [[xs1| |]|]; kill.
   destruct (get tbl vs p_web_listen) as [[xs4| |]|]; kill.
@@ -481,10 +482,10 @@ Proof.
 Qed.
 
 Theorem verify_implies_can_run tbl vs : verify_view tbl vs = true -> can_run tbl vs.
-Proof. intros H. apply can_run_b_sound, verify_implies_can_run_b, H. Qed.
+Proof using addr_ok. clear lib_dur lib_level. intros H. apply can_run_b_sound, verify_implies_can_run_b, H. Qed.
 
 Theorem load_implies_can_run tbl f vs : load tbl f = Ok vs -> can_run tbl vs.
-Proof.
+Proof using addr_ok. clear lib_dur lib_level.
   unfold ConfigTxn.load. destruct f as [ws| |]; try discriminate.
   destruct (_ && _) eqn:E; [|discriminate]. intros H. inversion H; subst.
   apply andb_true_iff in E as [_ E]. apply verify_implies_can_run, E.
@@ -1029,5 +1030,21 @@ Proof.
       destruct (IH _ Hinv1 Hdocs') as (s' & Hr & Hi & Ha). exists s'. split; [exact Hr|split; [exact Hi|]].
       rewrite Ha, Hal. fold (harmless tbl ops). rewrite andb_assoc. reflexivity.
 Qed.
+
+
+Theorem history_from_start tbl :
+  table_ok tbl = true ->
+  load tbl (FGood (defaults tbl)) = Ok (defaults tbl) ->
+  forall (f0 : file) (ops : list op), docs_wf ops ->
+  exists s, run tbl (start tbl f0) ops = Ok s /\ inv tbl s /\ s_alive s = harmless tbl ops.
+Proof.
+  intros Htbl Hdef f0 ops Hdocs.
+  destruct (start_inv tbl f0 Hdef) as [Hinv Halive].
+  destruct (history_inv tbl Htbl ops _ Hinv Hdocs) as (s & Hr & Hi & Ha).
+  exists s. rewrite Halive in Ha. exact (conj Hr (conj Hi Ha)).
+Qed.
+
+(* the configuration slice of C16 under its planned name *)
+Definition config_update_total := update_opt_total.
 
 End Txn.
